@@ -42,6 +42,47 @@ def run(ctx, replay):
             shutil.copy(src, os.path.join(dd, "g.y"))
         ctx.violation(key, dd, "grammar %s variant %s: %s\ngenerate exit=%s %s\nbuild: %s\nrun: %s" % (
             cr["id"], vr["variant"], name, vr["gen_exit"], vr["gen_out"][-300:], vr["build_out"][:600], vr["run_err"][:300]))
+    # a library user may generate several parsers in one process: the file generated AFTER a generation with another
+    # option set must be as good as the CLI's (same bytes: already judged above; otherwise it is built here)
+    seqs = {"go": "o,plain", "go-u": "ou,u", "go-o": "plain,o", "go-o-u": "u,ou"}
+    nseq = 0
+    if not replay:
+        import subprocess
+        vh = ctx.harness()
+        sd = ctx.sub("seq")
+        for cr in recs[:ctx.pick(8, 60)]:
+            for vr in cr["variants"]:
+                if vr["variant"] not in seqs or vr["gen_exit"] != 0 or not vr["build_ok"]:
+                    continue
+                gy, cli_out = os.path.join(vr["dir"], "g.y"), os.path.join(vr["dir"], "main.go")
+                if not (os.path.exists(gy) and os.path.exists(cli_out)):
+                    continue
+                wd = os.path.join(sd, "%s-%s" % (cr["index"], vr["variant"]))
+                os.makedirs(wd, exist_ok=True)
+                p = subprocess.run([vh, "gen2", "-file", gy, "-lang", "go", "-seq", seqs[vr["variant"]], "-dir", wd, "-keepout"],
+                                   stdout=subprocess.PIPE, stderr=subprocess.STDOUT, text=True, timeout=120)
+                second = os.path.join(wd, "gen2-1.out")
+                if p.returncode != 0 or not os.path.exists(second):
+                    raise Inconclusive("in-process generation sequence failed for %s %s: %s" % (cr["id"], vr["variant"], p.stdout[-300:]))
+                nseq += 1
+                if open(second, "rb").read() == open(cli_out, "rb").read():
+                    continue
+                bd = os.path.join(wd, "b")
+                os.makedirs(bd, exist_ok=True)
+                shutil.copy(second, os.path.join(bd, "main.go"))
+                open(os.path.join(bd, "go.mod"), "w").write("module vhseq\n\ngo 1.18\n")
+                env = dict(os.environ, GOFLAGS="-mod=mod", GOPROXY="off", GOTOOLCHAIN="local", CGO_ENABLED="0")
+                b = subprocess.run(["go", "build", "-o", "p", "."], cwd=bd, env=env, stdout=subprocess.PIPE, stderr=subprocess.STDOUT, text=True, timeout=300)
+                if b.returncode != 0:
+                    key = "%s:%s:sequence" % (cr["id"], vr["variant"])
+                    dd = ctx.replay_dir(key)
+                    json.dump([cases[cr["id"]]], open(os.path.join(dd, "cases.json"), "w"), indent=1)
+                    json.dump({"property": "C16", "kind": "build", "variant": vr["variant"], "invariant": "C16_Builds", "sequence": seqs[vr["variant"]]}, open(os.path.join(dd, "meta.json"), "w"))
+                    shutil.copy(gy, os.path.join(dd, "g.y"))
+                    shutil.copy(second, os.path.join(dd, "second-output.go"))
+                    ctx.violation(key, dd, "grammar %s: generated in one process with the option sets [%s] one after the other, the second file (no error reported) does not build:\n%s" % (
+                        cr["id"], seqs[vr["variant"]], b.stdout[:600]))
+    ctx.cov["in_process_sequences"] = nseq
     nvar = sum(len(cr["variants"]) for cr in recs)
     nok = sum(1 for cr in recs for vr in cr["variants"] if vr["gen_exit"] == 0 and vr["build_ok"])
     vet = sum(1 for cr in recs for vr in cr["variants"] if vr.get("vet_out", "").strip())
